@@ -667,39 +667,89 @@ def lean_list(xs):
     return '[' + ', '.join(str(x) for x in xs) + ']'
 
 
-def generate(repo: Path, outdir: Path) -> dict:
+def _blk_modes(repo: Path):
     py, cpp = extract_modes(repo)
+    return ['/-- `mode2int` of `_filters.py` as (name index, code); names indexed as in `Mode.code` -/',
+            'def pyModes : List (String × Nat) := [' + ', '.join(f'("{k}", {v})' for k, v in sorted(py.items())) + ']',
+            '/-- `ExtendMode` of `_filters.h` -/',
+            'def cppModes : List (String × Nat) := [' + ', '.join(f'("{k}", {v})' for k, v in sorted(cpp.items())) + ']',
+            ''], dict(modes=len(py))
+
+
+def _blk_structuring(repo: Path):
     ts, cross = extract_translate_sizes(repo)
-    names = ['nearest', 'wrap', 'reflect', 'mirror', 'constant', 'ignore']
-    s = ['/- GENERATED by translator/tables.py from the current /repo sources. Do not edit. -/',
-         'namespace Mahotas.Generated', '',
-         '/-- `mode2int` of `_filters.py` as (name index, code); names indexed as in `Mode.code` -/',
-         'def pyModes : List (String × Nat) := [' + ', '.join(f'("{k}", {v})' for k, v in sorted(py.items())) + ']',
-         '/-- `ExtendMode` of `_filters.h` -/',
-         'def cppModes : List (String × Nat) := [' + ', '.join(f'("{k}", {v})' for k, v in sorted(cpp.items())) + ']',
-         '',
-         '/-- `translate_sizes` of `get_structuring_elem`: (ndim, connectivity count, radius) -/',
-         'def translateSizes : List (Nat × Nat × Nat) := [' + ', '.join(f'({a}, {b}, {c})' for a, b, c in ts) + ']',
-         '/-- the literal 2-D default cross of `get_structuring_elem` -/',
-         'def defaultCross : List Int := ' + lean_list([x for row in cross for x in row]),
-         '']
+    return ['/-- `translate_sizes` of `get_structuring_elem`: (ndim, connectivity count, radius) -/',
+            'def translateSizes : List (Nat × Nat × Nat) := [' + ', '.join(f'({a}, {b}, {c})' for a, b, c in ts) + ']',
+            '/-- the literal 2-D default cross of `get_structuring_elem` -/',
+            'def defaultCross : List Int := ' + lean_list([x for row in cross for x in row]),
+            ''], dict(translate_sizes=len(ts))
+
+
+def _blk_colors(repo: Path):
     col = extract_colors(repo)
-    s += lean_colors(col)
+    return lean_colors(col), dict(colour_constants=len(col))
+
+
+def _blk_texture(repo: Path):
     tex = extract_texture(repo)
     fact = extract_factorials(repo)
-    s += lean_texture(tex, fact)
-    c15_lines, c15_info = c15_block(repo)
-    s += c15_lines
-    c17_lines, c17_info = _c17_block(repo)
-    s += c17_lines + ['']
+    return lean_texture(tex, fact), dict(directions_2d=len(tex['_2d_deltas']), directions_3d=len(tex['_3d_deltas']),
+                                         factorials=len(fact))
+
+
+def _blk_c17(repo: Path):
+    lines, info = _c17_block(repo)
+    return lines + [''], info
+
+
+# the blocks of Generated/Tables.lean, in file order. Each is extracted on its own: when the construct a block reads no
+# longer has the expected form, that block keeps its last generated text (so that every theorem that does not speak
+# about it is still checked) and the failure is reported under the block's name; harness/core.py decides which
+# properties' Lean files mention a definition of that block and breaks the tie for those only.
+TABLE_BLOCKS = [('modes', _blk_modes), ('structuring', _blk_structuring), ('colors', _blk_colors), ('texture', _blk_texture),
+                ('c15', c15_block), ('c17', _blk_c17)]
+FILE_BLOCKS = [('outconv', generate_outconv, 'OutConv.lean'), ('normalise', generate_normalisers, 'Normalise.lean'),
+               ('copyguards', generate_copy_guards, 'CopyGuards.lean')]
+
+
+def _stale_block(old: str, name: str):
+    m = re.search(r'^-- BEGIN block %s\n(.*?)^-- END block %s$' % (re.escape(name), re.escape(name)), old, re.S | re.M)
+    return m.group(1).rstrip('\n').split('\n') if m else None
+
+
+def defined_names(text: str) -> list[str]:
+    return sorted(set(re.findall(r'^\s*(?:def|abbrev|structure|inductive|theorem)\s+([A-Za-z_][\w\.]*)', text, re.M)))
+
+
+def generate(repo: Path, outdir: Path) -> dict:
+    res, failed, names = {}, {}, {}
+    tp = outdir / 'Tables.lean'
+    old = tp.read_text() if tp.exists() else ''
+    s = ['/- GENERATED by translator/tables.py from the current /repo sources. Do not edit. -/',
+         'namespace Mahotas.Generated', '']
+    for name, fn in TABLE_BLOCKS:
+        try:
+            lines, info = fn(repo)
+            res.update(info)
+        except Exception as e:  # noqa: the construct is gone or changed shape
+            lines = _stale_block(old, name)
+            if lines is None:
+                raise
+            failed[name] = f'{type(e).__name__}: {e}'
+        names[name] = defined_names('\n'.join(lines))
+        s += [f'-- BEGIN block {name}'] + list(lines) + [f'-- END block {name}', '']
     s += ['end Mahotas.Generated', '']
-    changed = _write_if_changed(outdir / 'Tables.lean', '\n'.join(s))
-    res = dict(tables_changed=changed, modes=len(py), translate_sizes=len(ts), colour_constants=len(col),
-               directions_2d=len(tex['_2d_deltas']), directions_3d=len(tex['_3d_deltas']), factorials=len(fact),
-               **c15_info, **c17_info)
-    res.update(generate_outconv(repo, outdir))      # C09
-    res.update(generate_normalisers(repo, outdir))  # C08
-    res.update(generate_copy_guards(repo, outdir))  # C08
+    res['tables_changed'] = _write_if_changed(tp, '\n'.join(s))
+    for name, fn, fname in FILE_BLOCKS:
+        try:
+            res.update(fn(repo, outdir))
+        except Exception as e:  # noqa
+            if not (outdir / fname).exists():
+                raise
+            failed[name] = f'{type(e).__name__}: {e}'
+        names[name] = defined_names((outdir / fname).read_text())
+    res['_failed'] = failed
+    res['_names'] = names
     return res
 
 
